@@ -335,6 +335,8 @@ def threads_run(rng, out):
 
 
 def run(ctx, out):
+    import families as _famgp
+    out.evaluations += _famgp.generic_parameter_twins(out, PROP)
     import families as _fam
     out.evaluations += _fam.same_class_union_serialisation(out, PROP)
     rng = random.Random(ctx['seed'])
